@@ -189,7 +189,13 @@ def run(ctx):
                       "subcommand error returned only when ignore_errors is off", "parse_subcommand returns the subcommand's error although ignore_errors is set (guards %s)" % guard_strs(ps, i))
     gmw = fx.body("clap_builder::parser::parser::Parser::get_matches_with")
     cl = [cb for c in gmw.calls_to(r"Result::map_err$") for cb in closure_bodies(fx, c)]
-    res.floor("R1.3", "map_err closure of get_matches_with", len(cl), 1)
+    # match form: `match self.parse(..) { Err(err) => { if ignore_errors { env; defaults } return Err(err) } Ok(()) => {} }` — the calls on
+    # the Err edge of parse() play the closure's role
+    err_edge = [c for c in gmw.calls_to(r"Parser::add_defaults$", r"Parser::add_env$") if any(re.match(r"^V1:parse\(self,", g) for g in guard_strs(gmw, c.bb))]
+    res.floor("R1.3", "map_err closure of get_matches_with", len(cl) + (1 if err_edge else 0), 1)
+    for c in err_edge:
+        res.check(has_bool(gmw, c.bb, "T", r"is_ignore_errors_set\("), "R1.3", "get_matches_with|defaults-on-error|" + c.callee_q.rsplit("::", 1)[1], c.where(),
+                  "env/defaults are added after a parse error only under ignore_errors", "env/defaults added after an error without the ignore_errors test")
     for cb in cl:
         for c in cb.calls_to(r"Parser::add_defaults$", r"Parser::add_env$"):
             res.check(has_bool(cb, c.bb, "T", r"is_ignore_errors_set\("), "R1.3", "get_matches_with|defaults-on-error|" + c.callee_q.rsplit("::", 1)[1], c.where(),
